@@ -84,6 +84,9 @@ pub fn gaps(thorough: bool) -> Vec<i64> {
     let mut g: Vec<i64> = (0..=45).collect();
     g.extend(585..=595);
     g.extend([57, 76, 95, 190, 304, 570, 589, 608, 1000, 1178, 4096, 9999, 10000]);
+    // byte / word boundaries of the shift count
+    g.extend(254..=277);
+    g.extend([511, 512, 513, 530, 531, 532]);
     if thorough {
         let mut k = 19;
         while k <= 10000 { g.push(k); g.push(k + 1); k += 19 * 7; }
